@@ -24,9 +24,9 @@ CHECKS = {
  "C07": ("proof", "Lean 4 naturality / validity theorems + correspondence across the five input formats",
          "Each case is presented as list, numpy array, dict (string and integer names) and names+valueof; named results are judged by the verified checkers; known finding KF4 (bin_completion computes on names).", TB),
  "C08": ("proof", "Lean 4 theorems greedy_four_thirds (Graham), kk_four_thirds, greedy/kk/roundrobin_gap, roundrobin_monotone/cards, multifit_ratio_four_thirds, greedy_maxmin_partial_* + verified DP oracle for the remaining sharp ratios",
-         "Gap bounds and round-robin structure full; 4/3 - 1/(3k) proved in full for LPT and for Karmarkar-Karp; PARTIAL: LPT's max-min ratio proved as 2k/(3k-1) (exact ratio under a window hypothesis), multifit proved <= (4/3 + 2^-it) OPT instead of 1.22 + 2^-it; the sharp constants are searched for counter-examples with the verified oracle on every run.", TB),
+         "Gap bounds and round-robin structure full; 4/3 - 1/(3k) proved in full for LPT and for Karmarkar-Karp; PARTIAL: LPT's max-min ratio proved as 2k/(3k-1) (exact ratio under a window hypothesis), multifit proved <= (5/4 + 2^-it) OPT instead of 1.22 + 2^-it; the sharp constants are searched for counter-examples with the verified oracle on every run.", TB),
  "C09": ("proof", "Lean 4 theorems ff/bf(±decreasing)_anyfit, ff/bf_seventeen_tenths_strong (<= 1.7 OPT + 1), ffd/bfd_three_halves, ffd/bfd_partial_four_thirds + verified optBins oracle",
-         "Any-fit invariant proved in full for all four heuristics in every arrival order; PARTIAL bounds: FF, BF <= floor(1.7 OPT) + 1 (weighting-function proof), FFD, BFD <= 3/2 OPT and <= (4 OPT + 1)/3, 11/9 outside one range of the last item's size; the absolute 1.7 and the 11/9 bounds are searched with the verified oracle.", TB),
+         "Any-fit invariant proved in full for all four heuristics in every arrival order; PARTIAL bounds: FF, BF <= floor(1.7 OPT) + 1 (weighting-function proof), FFD, BFD <= 3/2 OPT (absolute) and <= 5/4 OPT + 1, 11/9 OPT + 6/9 outside one range of the size of the last bin's first item; the absolute 1.7 and the 11/9 bounds are searched with the verified oracle.", TB),
  "C10": ("proof", "Lean 4 theorems cover_le_opt, coverDecreasing_half, twoThirds_two_thirds, threeQuarters_three_quarters + verified optCover oracle",
          "Full: ALG <= OPT for all three; (OPT-1)/2 for the decreasing heuristic, 2/3 (OPT-1) for two-thirds (2 OPT <= 3 ALG + 1) and 3/4 OPT - 4 for three-quarters (3 OPT <= 4 ALG + 9) are proved for all inputs by weighting-function arguments; every run also compares with the verified oracle optCover.", TB),
  "C13": ("proof", "Lean 4 theorems lb_admissible, lb_sorted_flag, genTree_eq, lexPerms_*, allCombSums_*, allCombContents_* + correspondence on direct calls",
